@@ -39,6 +39,8 @@ def _nonplain_values(r):
         out.append((src, z))
         out.append((f"[1, {src}]", [1, z]))
         out.append((f"{{'a': [{src}]}}", {"a": [z]}))
+        out.append((f"{{'k': {src}}}", {"k": z}))                       # as a dict member
+        out.append((f"[{{'a': {{'b': {src}}}}}]", [{"a": {"b": z}}]))     # as a member two dicts down
     out.append(("{...: 1}", {...: 1}))
     out.append(("[{...: 1}]", [{...: 1}]))
     out.append(("{'a': {...: ...}}", {"a": {...: ...}}))
